@@ -11,6 +11,7 @@ import random
 
 from ..contracts import judge, install_status_contract
 from ..runner import Acc
+from .. import logmode
 
 PROPERTY = "C18"
 LEVEL = "exploration"
@@ -56,7 +57,7 @@ def _one(acc, t, fam, status, case):
 def run_shard(desc) -> Acc:
     import logging
 
-    logging.disable(logging.CRITICAL)
+    logmode.apply(desc)
     import bellows.types as t
 
     acc = Acc()
